@@ -24,9 +24,11 @@ PROP = "C10"
 
 # ------------------------------------------------------------------ vocabulary (mirrors Linker.v)
 
-KINDS = ["Method", "Route", "Path", "Query", "Header", "FormField", "Body", "Security", "Unknown"]
+KINDS = ["Method", "Route", "Path", "Query", "Header", "FormField", "Body", "Security", "Unknown", "Hidden"]
 KIND_COQ = {"Method": "KMethod", "Route": "KRoute", "Path": "KPath", "Query": "KQuery", "Header": "KHeader",
-            "FormField": "KForm", "Body": "KBody", "Security": "KSecurity", "Unknown": "KUnknown"}
+            "FormField": "KForm", "Body": "KBody", "Security": "KSecurity", "Unknown": "KUnknown", "Hidden": "KHidden"}
+# a property key that no annotation allows (`validate` is the real one)
+XPROP_TEXT = 'validator: "min=1"'
 PARAM_KINDS = ["Path", "Query", "Header", "FormField", "Body"]
 UNKNOWN_NAME = "Querry"
 
@@ -35,6 +37,10 @@ GO_BASE = {"TAny": "any", "TErrorT": "error", "TEnum": "types.Color", "TPrimAlia
            "TTime": "time.Time", "TNamedTime": "types.MyTime", "TContext": "context.Context"}
 PRIMS = ["string", "int", "bool", "float64", "int64", "uint32"]
 SHAPE_FMT = {"SPlain": "%s", "SPtr": "*%s", "SSlice": "[]%s", "SPtrSlice": "*[]%s"}
+# further Go representatives of the class TStruct (parameter key "rep"): a struct that is merely CALLED Context -
+# in an application package whose import path ends in /context, and in the types package.  Only the standard
+# library's context.Context is the context parameter the property exempts.
+STRUCT_REPS = {1: "appctx.Context", 2: "types.Context"}
 GO_RET = {"RError": "error", "RLocalEmbeds": "LocalErr", "RForeignEmbeds": "types.MyErr", "RPlain": "string",
           "RLocalStruct": "LocalPlain", "RForeignStruct": "types.Item"}
 
@@ -82,6 +88,20 @@ type MyErr struct {
 	error
 	Code int
 }
+
+// A struct that is only called Context
+type Context struct {
+	Tenant string `json:"tenant"`
+}
+'''
+
+APPCTX_GO = '''package context
+
+// Per-tenant settings; an application type, not Go's context
+type Context struct {
+	Tenant string `json:"tenant"`
+	Locale string `json:"locale"`
+}
 '''
 
 LOCAL_GO = '''package %s
@@ -101,6 +121,8 @@ type LocalPlain struct {
 def go_type(p):
     b = p["base"]
     base = PRIMS[p.get("prim", 0) % len(PRIMS)] if b == "TPrim" else GO_BASE[b]
+    if b == "TStruct" and p.get("rep"):
+        base = STRUCT_REPS[p["rep"]]
     return SHAPE_FMT[p["shape"]] % base
 
 
@@ -114,11 +136,13 @@ def attr_text(a):
     al = a.get("alias")
     if v != "":
         t += "(" + v
+        props = []
         if al is not None:
-            if "s" in al:
-                t += ', {name:%s}' % json.dumps(al["s"])
-            else:
-                t += ', {name:%s}' % json.dumps(al["n"])
+            props.append('name:%s' % json.dumps(al["s"] if "s" in al else al["n"]))
+        if a.get("xprop"):
+            props.append(XPROP_TEXT)
+        if props:
+            t += ', {%s}' % ", ".join(props)
         t += ")"
     d = a.get("descr", "")
     if d:
@@ -142,6 +166,10 @@ def render_lproject(proj, root, modpath, cfgname="gleece.json"):
         f.write(TYPES_GO)
     with open(os.path.join(pkgdir, "zz_local.go"), "w") as f:
         f.write(LOCAL_GO % "ctl")
+    if any(p.get("rep") == 1 for r in proj["routes"] for p in r["params"]):
+        os.makedirs(os.path.join(root, "context"))
+        with open(os.path.join(root, "context", "context.go"), "w") as f:
+            f.write(APPCTX_GO)
     files = {}           # file index -> list of lines (without the header)
     layout = {}
 
@@ -232,6 +260,8 @@ def render_lproject(proj, root, modpath, cfgname="gleece.json"):
             imports.append('"time"')
         if re.search(r"(?<![A-Za-z_])types\.", body):
             imports.append('"%s/types"' % modpath)
+        if re.search(r"(?<![A-Za-z_])appctx\.", body):
+            imports.append('appctx "%s/context"' % modpath)
         header = "package ctl\n\nimport (\n%s\n)\n" % "\n".join("\t" + i for i in imports)
         if '"github.com/gopher-fleece/runtime"' in header and "runtime." not in body:
             header += "\nvar _ = runtime.GleeceController{}\n"
@@ -281,7 +311,8 @@ def coq_alias(al):
 
 
 def coq_route(r, prefix):
-    attrs = coq_list(["(mkLa %s %s %s)" % (KIND_COQ[a["k"]], coq_bytes(a["v"]), coq_alias(a.get("alias")))
+    attrs = coq_list(["(mkLa %s %s %s %s)" % (KIND_COQ[a["k"]], coq_bytes(a["v"]), coq_alias(a.get("alias")),
+                                              coq_bool(a.get("xprop")))
                       for a in r["attrs"]])
     params = coq_list(["(mkFp %s %s %s)" % (coq_bytes(p["name"]), p["base"], p["shape"]) for p in r["params"]])
     return "(mkRt %s %s %s %s)" % (coq_bytes(prefix), attrs, params, coq_list(r["rets"]))
@@ -289,7 +320,7 @@ def coq_route(r, prefix):
 
 COQ_HEADER = """From Gleece Require Import Base.Bytes Model.Annot Model.Linker.
 From Coq Require Import String.
-Definition mkLa k v a := {| la_kind := k; la_value := v; la_alias := a |}.
+Definition mkLa k v a x := {| la_kind := k; la_value := v; la_alias := a; la_xprop := x |}.
 Definition mkFp n b sh := {| fp_name := n; fp_base := b; fp_shape := sh |}.
 Definition mkRt p a ps rs := {| r_prefix := p; r_attrs := a; r_params := ps; r_rets := rs |}.
 (* predicted class: 0 not an endpoint, 1 Validate error, 2 error diagnostics, 3 clean and reducible,
@@ -583,18 +614,45 @@ RET_VARIANTS = [[], ["RPlain"], ["RError", "RPlain"], ["RPlain", "RPlain", "RErr
                 ["RLocalEmbeds"], ["RError", "RError"]]
 
 
-def single_perturbations(r):
-    """All single perturbations of a route: list of (label, new route)."""
+# the annotations ValidatorConfigMap gives no property at all / some properties but not `name`
+NO_PROPS_KINDS = ["Method", "Route", "Hidden"]
+OTHER_PROPS_KINDS = ["Security", "Body"]
+
+
+def prop_problem(x, i, how):
+    """A WARNING-level problem in the properties object of annotation i (in place): a key that is not allowed
+    (how = "xprop"), or a `name` on an annotation that does not take one (how = "name").  False = not applicable."""
+    a = x["attrs"][i]
+    if a["k"] == "Unknown" or a["v"] == "" or a["v"] != a["v"].strip():
+        return False                    # no rule / no place for a properties object / (blank values: another class)
+    if how == "xprop":
+        if a.get("xprop") or (a.get("alias") or {}).get("n") is not None:
+            return False
+        a["xprop"] = True
+        return True
+    if a["k"] not in NO_PROPS_KINDS + OTHER_PROPS_KINDS or a.get("alias") is not None:
+        return False
+    a["alias"] = {"s": "fresh_al"}
+    return True
+
+
+def single_perturbations(r, ext=False):
+    """All single perturbations of a route: list of (label, new route).  A perturbation of ONE annotation records
+    its index in "at".  ext: also the shapes added for the hidden-route / namesake-of-context / property-warning
+    legs (C18 shares the default list)."""
     out = []
 
-    def mk(label, f):
+    def mk(label, f, at=None):
         x = copy.deepcopy(r)
         if f(x) is False:
             return
         pn = [p_["name"] for p_ in x["params"]]
         if len(set(pn)) != len(pn):
             return                      # not valid Go
+        if any(a_.get("xprop") and (a_.get("alias") or {}).get("n") is not None for a_ in x["attrs"]):
+            return                      # two property problems on one annotation: Go map order picks the diagnostic
         x["pert"] = r["pert"] + [label]
+        x["at"] = at
         out.append((label, x))
 
     names = [p["name"] for p in r["params"]]
@@ -603,51 +661,51 @@ def single_perturbations(r):
     for i, a in enumerate(r["attrs"]):
         k = a["k"]
         mk("drop:%s" % k, lambda x, i=i: x["attrs"].pop(i))
-        mk("duplicate:%s" % k, lambda x, i=i: x["attrs"].insert(i + 1, copy.deepcopy(x["attrs"][i])))
-        mk("duplicate-at-end:%s" % k, lambda x, i=i: x["attrs"].append(copy.deepcopy(x["attrs"][i])))
-        mk("drop-value:%s" % k, lambda x, i=i: x["attrs"][i].update(v="", alias=None))
+        mk("duplicate:%s" % k, lambda x, i=i: x["attrs"].insert(i + 1, copy.deepcopy(x["attrs"][i])), at=i)
+        mk("duplicate-at-end:%s" % k, lambda x, i=i: x["attrs"].append(copy.deepcopy(x["attrs"][i])), at=i)
+        mk("drop-value:%s" % k, lambda x, i=i: x["attrs"][i].update(v="", alias=None), at=i)
         if k in PARAM_KINDS:
-            mk("rename-value:%s" % k, lambda x, i=i: x["attrs"][i].update(v="zz"))
-            mk("blank-value:%s" % k, lambda x, i=i: x["attrs"][i].update(v=" ", alias=None))
-            mk("trailing-blank:%s" % k, lambda x, i=i: x["attrs"][i].update(v=x["attrs"][i]["v"] + " "))
+            mk("rename-value:%s" % k, lambda x, i=i: x["attrs"][i].update(v="zz"), at=i)
+            mk("blank-value:%s" % k, lambda x, i=i: x["attrs"][i].update(v=" ", alias=None), at=i)
+            mk("trailing-blank:%s" % k, lambda x, i=i: x["attrs"][i].update(v=x["attrs"][i]["v"] + " "), at=i)
             for other in names:
                 if other != a["v"]:
-                    mk("retarget:%s" % k, lambda x, i=i, other=other: x["attrs"][i].update(v=other))
+                    mk("retarget:%s" % k, lambda x, i=i, other=other: x["attrs"][i].update(v=other), at=i)
                     break
             for k2 in PARAM_KINDS + ["Unknown", "Security"]:
                 if k2 != k:
-                    mk("rekind:%s->%s" % (k, k2), lambda x, i=i, k2=k2: x["attrs"][i].update(k=k2))
+                    mk("rekind:%s->%s" % (k, k2), lambda x, i=i, k2=k2: x["attrs"][i].update(k=k2), at=i)
             if a.get("alias") is None:
-                mk("add-alias:%s" % k, lambda x, i=i: x["attrs"][i].update(alias={"s": "fresh_al"}))
+                mk("add-alias:%s" % k, lambda x, i=i: x["attrs"][i].update(alias={"s": "fresh_al"}), at=i)
                 if urlnames:
-                    mk("add-alias-url:%s" % k, lambda x, i=i: x["attrs"][i].update(alias={"s": urlnames[0]}))
+                    mk("add-alias-url:%s" % k, lambda x, i=i: x["attrs"][i].update(alias={"s": urlnames[0]}), at=i)
             else:
-                mk("drop-alias:%s" % k, lambda x, i=i: x["attrs"][i].update(alias=None))
-                mk("rename-alias:%s" % k, lambda x, i=i: x["attrs"][i].update(alias={"s": "other_al"}))
-            mk("alias-nonstring:%s" % k, lambda x, i=i: x["attrs"][i].update(alias={"n": 12}))
-            mk("alias-empty:%s" % k, lambda x, i=i: x["attrs"][i].update(alias={"s": ""}))
+                mk("drop-alias:%s" % k, lambda x, i=i: x["attrs"][i].update(alias=None), at=i)
+                mk("rename-alias:%s" % k, lambda x, i=i: x["attrs"][i].update(alias={"s": "other_al"}), at=i)
+            mk("alias-nonstring:%s" % k, lambda x, i=i: x["attrs"][i].update(alias={"n": 12}), at=i)
+            mk("alias-empty:%s" % k, lambda x, i=i: x["attrs"][i].update(alias={"s": ""}), at=i)
             for b in r["attrs"]:
                 if b is not a and b["k"] == "Path" and k == "Path":
                     tgt = (b.get("alias") or {}).get("s") or b["v"]
-                    mk("alias-collide:%s" % k, lambda x, i=i, tgt=tgt: x["attrs"][i].update(alias={"s": tgt}))
+                    mk("alias-collide:%s" % k, lambda x, i=i, tgt=tgt: x["attrs"][i].update(alias={"s": tgt}), at=i)
                     break
         if k == "Method":
             for v in ("HEAD", "OPTIONS", "get", "FETCH"):
-                mk("verb:%s" % v, lambda x, i=i, v=v: x["attrs"][i].update(v=v))
+                mk("verb:%s" % v, lambda x, i=i, v=v: x["attrs"][i].update(v=v), at=i)
             if names:
-                mk("verb-as-param-name", lambda x, i=i: x["attrs"][i].update(v=names[-1]))
+                mk("verb-as-param-name", lambda x, i=i: x["attrs"][i].update(v=names[-1]), at=i)
         if k == "Security" and names:
-            mk("security-as-param-name", lambda x, i=i: x["attrs"][i].update(v=names[-1]))
+            mk("security-as-param-name", lambda x, i=i: x["attrs"][i].update(v=names[-1]), at=i)
         if k == "Route":
-            mk("url-add-param", lambda x, i=i: x["attrs"][i].update(v=x["attrs"][i]["v"] + "/{ghost}"))
-            mk("route-second-differs", lambda x, i=i: x["attrs"].insert(i + 1, {"k": "Route", "v": "/other/{late}"}))
-            mk("route-second-first", lambda x, i=i: x["attrs"].insert(i, {"k": "Route", "v": "/early%s/{early}" % x["name"]}))
+            mk("url-add-param", lambda x, i=i: x["attrs"][i].update(v=x["attrs"][i]["v"] + "/{ghost}"), at=i)
+            mk("route-second-differs", lambda x, i=i: x["attrs"].insert(i + 1, {"k": "Route", "v": "/other/{late}"}), at=i)
+            mk("route-second-first", lambda x, i=i: x["attrs"].insert(i, {"k": "Route", "v": "/early%s/{early}" % x["name"]}), at=i)
             if urlnames:
                 u = urlnames[0]
-                mk("url-drop-param", lambda x, i=i: x["attrs"][i].update(v=x["attrs"][i]["v"].replace("{%s}" % u, "lit", 1)))
-                mk("url-dup-param", lambda x, i=i: x["attrs"][i].update(v=x["attrs"][i]["v"] + "/{%s}" % u))
-                mk("url-rename-param", lambda x, i=i: x["attrs"][i].update(v=x["attrs"][i]["v"].replace("{%s}" % u, "{%s_x}" % u, 1)))
-                mk("url-unclosed", lambda x, i=i: x["attrs"][i].update(v=x["attrs"][i]["v"].replace("{%s}" % u, "{%s" % u, 1)))
+                mk("url-drop-param", lambda x, i=i: x["attrs"][i].update(v=x["attrs"][i]["v"].replace("{%s}" % u, "lit", 1)), at=i)
+                mk("url-dup-param", lambda x, i=i: x["attrs"][i].update(v=x["attrs"][i]["v"] + "/{%s}" % u), at=i)
+                mk("url-rename-param", lambda x, i=i: x["attrs"][i].update(v=x["attrs"][i]["v"].replace("{%s}" % u, "{%s_x}" % u, 1)), at=i)
+                mk("url-unclosed", lambda x, i=i: x["attrs"][i].update(v=x["attrs"][i]["v"].replace("{%s}" % u, "{%s" % u, 1)), at=i)
     mk("prefix-param", lambda x: x.update(prefix="/t/{tenant}"))
     mk("add-annotation:Security", lambda x: x["attrs"].append({"k": "Security", "v": "sec2"}))
     mk("add-annotation:Unknown", lambda x: x["attrs"].append({"k": "Unknown", "v": "whatever"}))
@@ -667,7 +725,53 @@ def single_perturbations(r):
     for rv in RET_VARIANTS:
         if rv != r["rets"]:
             mk("rets:%s" % ",".join(rv or ["void"]), lambda x, rv=rv: x.update(rets=list(rv)))
+    if ext:
+        for i, a in enumerate(r["attrs"]):
+            mk("add-unknown-property:%s" % a["k"], lambda x, i=i: prop_problem(x, i, "xprop"), at=i)
+            mk("add-name-property:%s" % a["k"], lambda x, i=i: prop_problem(x, i, "name"), at=i)
+        if not any(a["k"] == "Hidden" for a in r["attrs"]):
+            mk("add-annotation:Hidden-first", lambda x: x["attrs"].insert(0, {"k": "Hidden", "v": "", "alias": None}))
+            mk("add-annotation:Hidden-last", lambda x: x["attrs"].append({"k": "Hidden", "v": "", "alias": None}))
+        for rp, tname in sorted(STRUCT_REPS.items()):
+            mk("add-param:%s" % tname, lambda x, rp=rp: x["params"].append(
+                {"name": "extra", "base": "TStruct", "shape": "SPlain", "rep": rp}))
+            for j, p in enumerate(r["params"]):
+                for sh in ("SPlain", "SPtr"):
+                    if (p["base"], p["shape"], p.get("rep")) != ("TStruct", sh, rp):
+                        mk("retype:%s/%s" % (tname, sh),
+                           lambda x, j=j, sh=sh, rp=rp: x["params"][j].update(base="TStruct", shape=sh, rep=rp))
     return out
+
+
+def paired_perturbations(singles, rng, share):
+    """Double perturbations aimed at ONE annotation: a single perturbation of it together with a warning-level
+    problem in its properties object (the per-annotation checks run one after the other on the same annotation)."""
+    out = []
+    for s in singles:
+        at = s.get("at")
+        if at is None or at >= len(s["attrs"]) or rng.random() >= share:
+            continue
+        hows = ["xprop", "name"] if s["attrs"][at]["k"] in NO_PROPS_KINDS + OTHER_PROPS_KINDS else ["xprop"]
+        how = rng.choice(hows)
+        x = copy.deepcopy(s)
+        if prop_problem(x, at, how) is False:
+            continue
+        if any(a_.get("xprop") and (a_.get("alias") or {}).get("n") is not None for a_ in x["attrs"]):
+            continue
+        x["pert"] = s["pert"] + ["same-annotation-property:%s" % how]
+        out.append(x)
+    return out
+
+
+def decorate_bases(base, rng):
+    """Well-formed variants the property quantifies over as well: the route is hidden from the OpenAPI document
+    (@Hidden at any place of the comment); a struct parameter is of a type that is only CALLED Context."""
+    for b in base:
+        if rng.random() < 0.4:
+            b["attrs"].insert(rng.randrange(len(b["attrs"]) + 1), {"k": "Hidden", "v": "", "alias": None})
+        for p in b["params"]:
+            if p["base"] == "TStruct" and p["shape"] in ("SPlain", "SPtr") and rng.random() < 0.6:
+                p["rep"] = rng.choice(sorted(STRUCT_REPS))
 
 
 def deliberate_routes():
@@ -705,9 +809,11 @@ def deliberate_routes():
 
 
 def strip_route(r):
-    return {"name": r["name"], "prefix": r["prefix"], "attrs": [{"k": a["k"], "v": a["v"], "alias": a.get("alias")}
-                                                                for a in r["attrs"]],
-            "params": [{"name": p["name"], "base": p["base"], "shape": p["shape"], "prim": p.get("prim", 0)}
+    return {"name": r["name"], "prefix": r["prefix"],
+            "attrs": [dict({"k": a["k"], "v": a["v"], "alias": a.get("alias")}, **({"xprop": True} if a.get("xprop") else {}))
+                      for a in r["attrs"]],
+            "params": [dict({"name": p["name"], "base": p["base"], "shape": p["shape"], "prim": p.get("prim", 0)},
+                            **({"rep": p["rep"]} if p.get("rep") and p["base"] == "TStruct" else {}))
                        for p in r["params"]], "rets": list(r["rets"]), "pert": list(r.get("pert", []))}
 
 
@@ -843,10 +949,10 @@ def shrink_route(r, still_fails, budget=25):
 # ------------------------------------------------------------------ translator obligation: the rule table
 
 def rule_rows(dump):
-    kn = {"Method": 0, "Route": 1, "Path": 2, "Query": 3, "Header": 4, "FormField": 5, "Body": 6, "Security": 7}
+    kn = {"Method": 0, "Route": 1, "Path": 2, "Query": 3, "Header": 4, "FormField": 5, "Body": 6, "Security": 7, "Hidden": 9}
     rows = []
     byname = {r["name"]: r for r in dump["rules"]}
-    for name in ["Method", "Route", "Path", "Query", "Header", "FormField", "Body", "Security"]:
+    for name in ["Method", "Route", "Path", "Query", "Header", "FormField", "Body", "Security", "Hidden"]:
         r = byname.get(name)
         if r is None:
             rows.append([kn[name], 9])
@@ -878,7 +984,10 @@ def check_rule_table(res):
         "bool_n (list_eqb str_eqb supported_verbs impl_supported); " \
         "bool_n (mset_eqb str_eqb (supported_verbs ++ other_http_verbs) impl_valid)].\nPrint table_ok.\n"
     ok = parse_nat_list(run_coq_file(PROP, "rules", body), "table_ok")
-    return ok == [1, 1, 1], {"rows": rows, "supported_verbs": dump["supported_verbs"], "valid_verbs": dump["valid_verbs"],
+    # la_xprop stands for a key no annotation allows: the key the renderer writes must be such a key
+    xkey = XPROP_TEXT.split(":")[0]
+    ok.append(int(all(xkey not in r["properties"] and not r["any_property"] for r in dump["rules"] if r["name"] in KINDS)))
+    return ok == [1, 1, 1, 1], {"rows": rows, "supported_verbs": dump["supported_verbs"], "valid_verbs": dump["valid_verbs"],
                              "obligations": ok}
 
 
@@ -989,15 +1098,18 @@ def main():
         nbase = 10 if a.tier == "quick" else 120
         ndouble = 200 if a.tier == "quick" else 4000
         base = [gen_base_route(rng, i) for i in range(nbase)]
+        rng2 = random.Random(seed * 7919 + 10)        # the added shapes draw from their own stream
+        decorate_bases(base, rng2)
         routes = [copy.deepcopy(b) for b in base]
         singles = []
         for b in base:
-            singles += [x for (_, x) in single_perturbations(b)]
+            singles += [x for (_, x) in single_perturbations(b, ext=True)]
         routes += singles
         for _ in range(ndouble):
             s1 = rng.choice(singles)
-            opts = single_perturbations(s1)
+            opts = single_perturbations(s1, ext=True)
             routes.append(rng.choice(opts)[1])
+        routes += paired_perturbations(singles, rng2, 0.3 if a.tier == "quick" else 1.0)
         routes += deliberate_routes()
         cf = os.path.join(CORPUS, "C10.json")
         if os.path.exists(cf):
@@ -1065,7 +1177,7 @@ def main():
         for _ in range(600 if pool else 0):
             x = rng.choice(pool)
             for _ in range(rng.choice([1, 2, 3])):
-                opts = single_perturbations(x)
+                opts = single_perturbations(x, ext=True)
                 if not opts:
                     break
                 x = rng.choice(opts)[1]
@@ -1140,7 +1252,11 @@ def main():
                 "shapes), ALL their single perturbations (drop/duplicate/rename/retarget/re-kind an annotation, aliases "
                 "added/dropped/renamed/non-string/empty/colliding, URL parameters added/dropped/duplicated/renamed, verbs, "
                 "controller prefix parameter, parameters dropped/added/renamed/retyped over 15 type shapes, 11 return "
-                "shapes), a seeded sample of double perturbations and one deliberate instance of every recorded class; "
+                "shapes; @Hidden added first/last; an unknown property key or a `name` property on every annotation; "
+                "parameters of / retyped to a struct that is only called Context, in <module>/context and in types), a "
+                "seeded sample of double perturbations, double perturbations aimed at one annotation (a single "
+                "perturbation of it plus a warning-level problem in its properties object) and one deliberate instance "
+                "of every recorded class; well-formed routes carry @Hidden (p=0.4) and use the namesake structs at random; "
                 "non-trivial = rejected, warned or ignored by the implementation, distinct by annotations+signature",
         "samples": [{"route": strip_route(routes[i]), "implementation": obs[i], "oracle": rs[i]}
                     for i in (0, len(routes) // 3, len(routes) // 2)] if routes else [],
@@ -1157,7 +1273,10 @@ def main():
     res.assumptions += [
         "enforceSecurityOnAllRoutes is off (validateSecurity is not part of the property)",
         "type classes are represented by one Go type each (string/int/... , types.Color, types.MyStr, types.ItemAlias, "
-        "map[string]int, types.Item, time.Time, types.MyTime, any, error) in the shapes T, *T, []T, *[]T",
+        "map[string]int, types.Item, time.Time, types.MyTime, any, error) in the shapes T, *T, []T, *[]T; the struct class "
+        "also by <module>/context.Context and types.Context (structs that are only called Context)",
+        "an unknown property key is never combined with a non-string `name` on one annotation (Go map order decides "
+        "which of the two warnings validateAnnotationProperties returns)",
         "diagnostics are compared as multisets of (code, severity) per receiver; messages and ranges belong to C18",
         "the sort of non-path attributes by name in validateNonPathAnnotations only affects diagnostic order",
     ]
